@@ -590,6 +590,14 @@ func (m *Manager) NewScopedKeyManager(ns walletdb.ReadWriteBucket,
 		if err != nil {
 			return nil, err
 		}
+
+		// Record the default account just created as the scope's last
+		// account, as is done for the default scopes, so that the next
+		// new account doesn't reuse its number.
+		err = putLastAccount(ns, &scope, DefaultAccountNum)
+		if err != nil {
+			return nil, err
+		}
 	}
 
 	// Finally, we'll register this new scoped manager with the root
